@@ -696,6 +696,58 @@ class RangeShapes(Sub):
         return out
 
 
+class JoinRoundTrip(Sub):
+    name = 'c06.join_round_trip'
+    rule = ('a number or a date-time joined into text with & spells that value: ("" & x) used as a number again is x EXACTLY for 60 '
+            'floats of 1..17 significant digits (sums of decimals, thirds, large and tiny magnitudes, adjacent doubles) and integers '
+            'to 2^63, so that "=" & MAX(xs) is a criterion that selects MAX(xs); DATEVALUE(d & "") = DATEVALUE(d) to half a '
+            'millisecond for date-times with and without milliseconds; non-trivial = all')
+    min_cases = 50
+    min_nontrivial = 50
+
+    def values(self):
+        import math
+        v = [0.1 + 0.2, 1 / 3, 2 / 3, 0.1, 1e-7, 1.5e-10, 123456789.123456789, 9007199254740991.0, 0.30000000000000004, 5e-324,
+             1.7976931348623157e308, 1e22, 1e21, 123456.7, -2.675, 2.5, 1e15 + 0.5, 0.999999999999999, 1.0000000000000002,
+             math.pi, math.e, 1 / 7, 100 / 3, 1e-5, 0.000123456789012345, 7.1, 6.02e23]
+        v += [math.nextafter(x, math.inf) for x in (0.3, 1.0, 1e6, 1e-6, 123.456)]
+        v += [x * 1.0000000000000004 for x in (3.3, 77.7, 1e9 + 0.1)]
+        v += [-x for x in v[:12]]
+        v += [0, 1, -1, 2 ** 53, 2 ** 53 + 1, 2 ** 63 - 1, -2 ** 62, 10 ** 15, 10 ** 20 + 1, 123456789012345678]
+        return v
+
+    def cases(self, tier, unit):
+        for i in range(len(self.values())):
+            yield ['n', i]
+        for iso in ('2021-06-15T13:45:30.250000', '2021-06-15T13:45:30', '2021-06-15T00:00:00', '1999-12-31T23:59:59.999000',
+                    '2000-02-29T12:00:00.001000', '9999-12-31T23:59:59.999000', '1900-03-01T00:00:00.500000'):
+            yield ['d', iso]
+
+    def check(self, env, case):
+        env.nt()
+        if case[0] == 'n':
+            x = self.values()[case[1]]
+            out = []
+            for f in ('(""&xa)*1', '(xa&"")+0', 'COUNTIF(xl,"="&xa)', 'SUMIF(xl,"<="&xa)-xa', 'MATCH(xa,xl,0)&"|"&COUNTIF(xl,"="&MAX(xl))'):
+                o = env.evo(f, {'xa': x, 'xl': [x]})
+                want = {0: x, 1: x, 2: 1, 3: 0, 4: '1|1'}[('(""&xa)*1', '(xa&"")+0', 'COUNTIF(xl,"="&xa)', 'SUMIF(xl,"<="&xa)-xa',
+                                                           'MATCH(xa,xl,0)&"|"&COUNTIF(xl,"="&MAX(xl))').index(f)]
+                got = env.dec(o[1]) if o[0] == 'v' else None
+                if o[0] != 'v' or got != want or (isinstance(want, (int, float)) and isinstance(got, bool)):
+                    out.append(fail('%s with xa = %r, xl = [xa] gives %r, expected %r: the text & makes of a number must spell that number' % (
+                        f, x, o, want), enc(want), o))
+                    break
+            return out
+        t = datetime.datetime.fromisoformat(case[1])
+        a = env.evo('DATEVALUE(xd&"")-DATEVALUE(xd)', {'xd': t})
+        b = env.evo('(xd&"")-xd', {'xd': t})
+        bad = [o for o in (a, b) if o[0] != 'v' or not isinstance(o[1], (int, float)) or abs(o[1]) > 0.5 / 86400000]
+        if bad:
+            return fail('a date-time joined into text and read back: DATEVALUE(xd&"")-DATEVALUE(xd) = %r, (xd&"")-xd = %r with xd = %s; '
+                        'expected 0 to half a millisecond' % (a, b, t.isoformat()), 0, bad[0])
+        return None
+
+
 class Nested(Base):
     name = 'c06.nested'
     rule = ('every 2x2 nested array over 3 [quick] / 4 [thorough] element values x {+,-,*,/} against: 9 scalars '
@@ -1071,5 +1123,5 @@ class ArrayScale(Sub):
         return out
 
 
-SUBS = [ScalarPairs(), ArrayScalar(), ArrayArray(), Mismatch(), OneItem(), RangeShapes(), Extremes(), Nested(), LiteralArrays(), Concat(), EarlyDates(),
+SUBS = [ScalarPairs(), ArrayScalar(), ArrayArray(), Mismatch(), OneItem(), RangeShapes(), Extremes(), JoinRoundTrip(), Nested(), LiteralArrays(), Concat(), EarlyDates(),
         ExactIntegers(), ArrayReuse(), ArrayScale()]
